@@ -78,6 +78,16 @@ let run_hist ?(spec_like = false) (noop : bool) (step : world -> wop -> (world *
            (match apply (WUnregister (ni (arg 1))) with
             | Some _ -> add (if noop then "u=ok" else "u=ok:be" ^ (if asked then "1" else "0"))
             | None -> abort ())
+         | "ur" ->
+           (* release owner j while another registration of the same function is attempted at the moment the back end is
+              asked: refused, because the function is still registered (C13_register_refusals) *)
+           (match cb_owner_at !w (ni (arg 1)) with
+            | Some (i, k) when created (int_of_nat i) ->
+              let nested = (match register_cb !w i k with Ok _ -> "accepted" | _ -> "refused") in
+              (match apply (WUnregister (ni (arg 1))) with
+               | Some _ -> add ("ur=ok:nested=" ^ nested)
+               | None -> abort ())
+            | _ -> add "ur=skip")
          | "mc" ->
            let j = arg 1 and j2 = arg 2 in
            if j = j2 || cb_owner_at !w (ni j) <> None then add "mc=skip"
